@@ -98,6 +98,11 @@ def gen_plan(seed: int, run: int, tier: str) -> dict:
         "share_study": share_study,
         "reuse_dicts": rng.random() < 0.4,
     }
+    # disk errors (journal file deployments): an fsync reports EIO although the record is
+    # already in the file - the call fails, its effect is ambiguous
+    if kind.startswith("jf") and rng.random() < 0.25:
+        names_all = sorted(tasks)
+        cfg["io_faults"] = [{"task": rng.choice(names_all), "nth": rng.randint(0, 8)} for _ in range(rng.randint(1, 2))]
     return {"check": ID, "seed": seed, "run": run, "cfg": cfg, "queue": queue, "pre": pre, "tasks": tasks, "sched": {"seed": rng.getrandbits(48)}}
 
 
@@ -181,6 +186,28 @@ def _run(plan: dict, sim: sched.Sim, ch: sched.Chooser, dep: deploy.Deployment) 
     if hasattr(st0, "remove_session"):
         st0.remove_session()
 
+    io_faults = [dict(f) for f in cfg.get("io_faults", [])]
+    nfsync: dict[str, int] = {}
+    amb = {"asks": 0, "enq": [], "tells": 0}
+    if dep.fs is not None and io_faults:
+        import errno as _errno
+
+        def io_fault(task: Any, op: str) -> Any:
+            if task is None:
+                return None
+            root = task.name.rstrip("+")
+            nfsync[root] = nfsync.get(root, 0) + 1
+            for f in io_faults:
+                if f["task"] == root and f["nth"] == nfsync[root] - 1 and not f.get("fired"):
+                    f["fired"] = True
+                    return _errno.EIO
+            return None
+
+        dep.fs.io_fault = io_fault
+
+    def injected(e: BaseException) -> bool:
+        return isinstance(e, OSError) and getattr(e, "errno", None) == 5 and bool(io_faults)
+
     asks: list[dict] = []  # every successful ask()
     verdict: list[tuple[str, str]] = []
     studies: dict[str, Any] = {}
@@ -198,13 +225,25 @@ def _run(plan: dict, sim: sched.Sim, ch: sched.Chooser, dep: deploy.Deployment) 
         except UpdateFinishedTrialError:
             sim.count("ask_lost_to_finished_trial")
             return None
+        except OSError as e:
+            if not injected(e):
+                raise
+            amb["asks"] += 1  # the claim (or the new trial) may have been recorded: ambiguous
+            sim.count("ask_failed_io_error")
+            return None
         qid = trial.user_attrs.get("qid")
         rec = {"by": name, "number": trial.number, "qid": qid, "sugg": {}}
         sim.note("ask", name, trial.number, qid)
-        for n2, d in (("x", FloatDistribution(0.0, 1.0)), ("c", CategoricalDistribution(["a", "b", "c"])), ("i", IntDistribution(0, 10))):
-            rec["sugg"][n2] = trial._suggest(n2, d)
-        rec["sugg_again"] = trial.suggest_float("x", 0.0, 1.0)
-        asks.append(rec)
+        asks.append(rec)  # the worker has the trial from here on
+        try:
+            for n2, d in (("x", FloatDistribution(0.0, 1.0)), ("c", CategoricalDistribution(["a", "b", "c"])), ("i", IntDistribution(0, 10))):
+                rec["sugg"][n2] = trial._suggest(n2, d)
+            rec["sugg_again"] = trial.suggest_float("x", 0.0, 1.0)
+        except OSError as e:
+            if not injected(e):
+                raise
+            rec["io_error"] = True  # a suggest failed with the injected disk error
+            sim.count("suggest_failed_io_error")
         return trial
 
     def make_consumer(name: str, t: dict) -> Any:
@@ -243,6 +282,10 @@ def _run(plan: dict, sim: sched.Sim, ch: sched.Chooser, dep: deploy.Deployment) 
                 study.tell(trial, state=TrialState[state])
         except sched.SimKilled:
             raise
+        except OSError as e:
+            if not injected(e):
+                raise
+            amb["tells"] += 1
         except Exception as e:  # noqa
             verdict.append((prefix + "tell-raised|" + type(e).__name__, "tell(%d) raised %r" % (trial.number, e)))
 
@@ -257,6 +300,12 @@ def _run(plan: dict, sim: sched.Sim, ch: sched.Chooser, dep: deploy.Deployment) 
                     enqueue(study, q)
                 except sched.SimKilled:
                     raise
+                except OSError as e:
+                    if not injected(e):
+                        raise
+                    amb["enq"].append(q["qid"])  # may or may not be in the queue
+                    sim.count("enqueue_failed_io_error")
+                    continue
                 except Exception as e:  # noqa
                     verdict.append((prefix + "enqueue-raised|" + type(e).__name__, "%s enqueue raised %r" % (name, e)))
                     return
@@ -364,13 +413,27 @@ def _run(plan: dict, sim: sched.Sim, ch: sched.Chooser, dep: deploy.Deployment) 
     obs = dep.observer()
     sid = obs.get_study_id_from_name("q")
     stored = obs.get_all_trials(sid, deepcopy=False)
-    by_qid = {t.user_attrs.get("qid"): t for t in stored if t.user_attrs.get("qid") is not None}
+    by_qid = {}
+    for t in stored:
+        k = t.user_attrs.get("qid")
+        if k is None:
+            continue
+        if k in by_qid:
+            return common.result(sim, ch, "violation", prefix + "enqueued-twice", "one enqueue call for qid=%r, but trials %d and %d both carry it" % (k, by_qid[k].number, t.number), nontrivial=nontrivial)
+        by_qid[k] = t
+    for k in amb["enq"]:
+        if k in by_qid and k not in enq_done:
+            enq_done.append(k)  # the failed enqueue call did take effect
     got = {a["qid"]: a for a in asks if a["qid"] is not None}
     if cons:
         for k in sorted(enq_done):
             t = by_qid.get(k)
             if t is None:
                 return common.result(sim, ch, "violation", prefix + "enqueued-trial-lost", "enqueued trial qid=%d is not in the study" % k, nontrivial=nontrivial)
+            if k not in got and t.state != TrialState.WAITING and amb["asks"] > 0:
+                amb["asks"] -= 1  # claimed by an ask() that then failed with an I/O error: exempt
+                sim.count("exempt_ambiguous_claim")
+                continue
             if t.state == TrialState.WAITING or k not in got:
                 return common.result(sim, ch, "violation", prefix + "skipped", "enqueued trial qid=%d (number %d) was never returned by ask() although consumers kept asking and the drain ran; its state is %s; asks: %r" % (k, t.number, t.state.name, [(a["by"], a["number"], a["qid"]) for a in asks]), nontrivial=nontrivial)
     for k, a in sorted(got.items()):
@@ -379,6 +442,8 @@ def _run(plan: dict, sim: sched.Sim, ch: sched.Chooser, dep: deploy.Deployment) 
         if q is None or t is None:
             continue
         want = params_of(q)
+        if a.get("io_error"):
+            continue
         for name, v in want.items():
             if a["sugg"].get(name) != v:
                 return common.result(sim, ch, "violation", prefix + "wrong-fixed-param", "consumer %s got %s=%r for enqueued trial qid=%d, enqueued value %r" % (a["by"], name, a["sugg"].get(name), k, v), nontrivial=nontrivial)
